@@ -648,7 +648,7 @@ impl Gen {
         } else {
             out.push_str(&format!("{}constructor(n{}, s{}) {{ this.n = n; this.s = s; }}\n", i2, slot('N'), slot('S')));
         }
-        out.push_str(&format!("{}{}describe(){} {{ return this.s + '#' + this.n{}; }}\n", i2, slot('m'), slot('r'), if is_derived { " + super.describe()" } else { "" }));
+        out.push_str(&format!("{}describe(){} {{ return this.s + '#' + this.n{}; }}\n", i2, slot('r'), if is_derived { " + super.describe()" } else { "" }));
         out.push_str(&format!("{}get double(){} {{ return this.n * 2; }}\n", i2, slot('r')));
         out.push_str(&format!("{}static make(k{}){} {{ return new {}(k, 'made'); }}\n", i2, slot('N'), slot('r'), name));
         out.push_str(&format!("{}}}\n", ind));
